@@ -219,12 +219,37 @@ def prove(mod, theorems, log):
     text = out + err
     decls = theorem_lines(mod) if os.path.exists(lean_module_path(mod)) else []
     declared = {d[0]: d for d in decls}
+    # theorems stated in lemma modules that the property module imports (table facts etc.)
+    imported = {}
+    for im in module_imports(mod):
+        if im != mod and os.path.exists(lean_module_path(im)):
+            for d in theorem_lines(im):
+                imported[d[0]] = (im, d)
     relp = os.path.relpath(lean_module_path(mod), LEAN)
     errs_here = [(int(m.group(1)), m.group(2)) for m in re.finditer(r'error: ' + re.escape(relp) + r':(\d+):\d+: (.*)', text)]
     other_err = rc != 0 and not errs_here
     for th in theorems:
+        if th not in declared and th in imported:
+            im, (_, lo, hi) = imported[th]
+            relim = os.path.relpath(lean_module_path(im), LEAN)
+            errs_im = [(int(m.group(1)), m.group(2)) for m in re.finditer(r'error: ' + re.escape(relim) + r':(\d+):\d+: (.*)', text)]
+            mine = [msg for (ln, msg) in errs_im if lo <= ln <= hi]
+            if rc == 0 or not errs_im and not other_err and False:
+                res[th] = (True, '')
+            elif mine:
+                res[th] = (False, mine[0])
+            elif errs_im:
+                earlier = [msg for (ln, msg) in errs_im if ln < lo]
+                res[th] = (False, 'an earlier declaration of its module failed: ' + earlier[0]) if earlier else (True, '')
+            else:
+                # the failure is elsewhere (another module or the property module itself)
+                m = re.search(r'error: (\S+\.lean):(\d+):\d+: (.*)', text)
+                dep_failed = m and m.group(1) != relp and m.group(1) != relim and \
+                    m.group(1)[:-5].replace('/', '.') in module_imports(im)
+                res[th] = (False, f'a module it depends on no longer checks: {m.group(1)}:{m.group(2)}: {m.group(3)}') if dep_failed else (True, '')
+            continue
         if th not in declared:
-            res[th] = (False, f'theorem {th} is not declared in {mod}')
+            res[th] = (False, f'theorem {th} is not declared in {mod} or its imports')
             continue
         if rc == 0:
             res[th] = (True, '')
